@@ -440,11 +440,22 @@ def defaults_fn(e):
     bmin = e.real('b_min', 5, 8)
     prop = [[(0.0, 0.0), (30.0, 0.0), (30.0, 20.0), (0.0, 20.0)]]
     nogo = [[(10.0, 5.0), (20.0, 5.0), (20.0, 15.0), (10.0, 15.0)]]
-    d1 = D.polygonal_land_constraint(bmin, 10.0, 10.0, prop, nogo)
-    d2 = D.polygonal_land_constraint(bmin, 10.0, 10.0, prop, nogo)
-    same = [[list(f) for f in sub] for sub in d1[0]] == [[list(f) for f in sub] for sub in d2[0]]
     dflt = inspect.signature(D.polygonal_land_constraint).parameters['keep_contour'].default
     dflt2 = inspect.signature(DS.DesignBiRectangleConstrained.__init__).parameters['keep_contour'].default
+    # the zone's outline passes through grid points for b = 5 (x = 10, 20; y = 5, 15): whether the contour is kept shows in the result
+    d1 = D.polygonal_land_constraint(bmin, 10.0, 10.0, prop, nogo)
+    d1b = D.polygonal_land_constraint(bmin, 10.0, 10.0, prop, nogo, keep_contour=dflt2)         # as DesignBiRectangleConstrained passes it
+    # other designs in between: no no-go zone at all (None, and an empty list), another lot, through both default lists
+    other = [[(0.0, 0.0), (40.0, 0.0), (40.0, 25.0), (0.0, 25.0)]]
+    for pb, ng in ((prop, None), (prop, []), (other, None), (other, [[(5.0, 5.0), (15.0, 5.0), (15.0, 15.0)]])):
+        D.polygonal_land_constraint(bmin, 10.0, 10.0, pb, ng)
+        D.polygonal_land_constraint(bmin, 10.0, 10.0, pb, ng, keep_contour=dflt2)
+    d2 = D.polygonal_land_constraint(bmin, 10.0, 10.0, prop, nogo)
+    d2b = D.polygonal_land_constraint(bmin, 10.0, 10.0, prop, nogo, keep_contour=dflt2)
+
+    def fields(d):
+        return [[list(f) for f in sub] for sub in d[0]]
+    same = fields(d1) == fields(d2) and fields(d1b) == fields(d2b) and fields(d1) == fields(d1b)
     return same and dflt == [True, False] and dflt2 == [True, False]
 
 
